@@ -862,6 +862,21 @@ func runCutJob(j *cutJob) {
 		return
 	}
 	if stream == nil {
+		// the model input is what the proxy recorded as delivered.  The record must be consistent
+		// with what the receiver demonstrably got: a receiver that completed (the handler read all
+		// its arguments, dir 1; the caller holds the whole response, dir 0 big) got the whole
+		// stream, whose length does not vary between runs; a handler that started got at least
+		// the first call frame.  A shorter record (seen in thorough-tier rounds under load:
+		// an empty record although the handler had read its arguments) is a recording artifact of
+		// the harness: the model's premise -- "the receiver got exactly these bytes" -- is not
+		// established, and the case is judged by the statement-level oracle only (which still
+		// requires arguments read without error to be exactly the ones sent).
+		complete := (j.ex.dir == 1 && r.handlerOK) || (j.ex.dir == 0 && r.err == nil)
+		started := j.ex.dir == 1 && r.handlerStarted
+		if (complete && len(got) < len(j.ref)) || (started && len(got) <= j.initL) {
+			j.oracleOnly, j.key = true, j.id
+			return
+		}
 		if len(got) > j.initL {
 			stream = got[j.initL:]
 		} else {
